@@ -20,12 +20,21 @@ func init() {
 		Rule: "all pairs of subsets of a small universe for every binary operation (receiver of the Union method with exact, missing-by-one, sufficient and no spare capacity, and aliased), " +
 			"all argument lists up to length 4 over {-1..3} for Add on every receiver within {0..4} and for NewSortedInts (length 5), Remove/ContainsSingle/Complement on all small sets, Range on a full cube of (start,end,step); " +
 			"seeded large sets, seeded histories of Add/Remove/Union on one value with bystander results; ints.Sort and the heapsort entry point on every small input and on patterned inputs of length 0..3000. " +
-			"Every operand lives inside a larger array surrounded by sentinels and is compared bit for bit (length, contents, spare capacity) after each call. " +
-			"non-trivial = binary case whose operands properly overlap (a-b, b-a and a&b all non-empty), Add/NewSortedInts list with a repeated or already present element plus a new one, Range with >= 2 elements, sort input longer than 12 that is not already sorted; distinct = enumeration without repetition or hash of the operands",
+			"Every operand lives inside a larger array surrounded by sentinels and is compared bit for bit (length, contents, spare capacity) after each call; for Add that includes the receiver's old array (a copy of the old value and the cells behind it). " +
+			"Representations: the empty set as nil, empty non-nil with and without capacity, zero-length sub-slices and every empty result the library itself returns (Range, Intersection, SetMinus, XOR, Union, Complement, NewSortedInts(), emptied by Remove, nil receivers after Add()/Union(nil)) " +
+			"in every argument position of every function, as receiver and as variadic argument list, all ordered pairs of them and each with non-empty operands (exact, spare capacity, library result). " +
+			"Values: scenarios with several LIVE values sharing backing arrays - copies by assignment, prefixes / sub-slices of a larger set, longer earlier snapshots, library results, the raw array around a value - made in 12 ways " +
+			"(exact, spare capacity, grown by append, single Adds, NewSortedInts with repeats, after Remove, after in-place Union ...): every ordered pair of single mutations on two copies of one parent, and seeded forests of values mixing copies, mutators and functions whose results join the forest; " +
+			"after EVERY call all live values are compared with what they read before (cells inside the documented in-place licence of Remove / a fitting Union method are recorded, not judged). " +
+			"non-trivial = binary case whose operands properly overlap (a-b, b-a and a&b all non-empty), Add/NewSortedInts list with a repeated or already present element plus a new one, Range with >= 2 elements, sort input longer than 12 that is not already sorted, " +
+			"pair of operands in two different representations, scenario in which a mutator ran while another live value shared the receiver's array; distinct = enumeration without repetition or hash of the operands",
 		Assumptions: []string{
 			"oracle: map[int]bool with the literal definitions of the set operations, cross-checked against bit-mask arithmetic; sort.Ints of the standard library for ints.Sort",
 			"Range(start,end,step) is read as documented: the elements start + i*step (i >= 0) from start (inclusive) towards end (exclusive), returned increasing; the three 'Infinite set' conditions of the code must panic; start == end is the empty set",
 			"Complement(n, a) for n < 0 is not fixed by the documentation and not exercised; Range is exercised up to the limits of int with small results only",
+			"the property speaks about sets: nil, empty non-nil and empty-with-capacity slices all are the empty set and must be treated alike as arguments; which of them a function returns for an empty result is recorded, not judged",
+			"'mutators change only their receiver' between values that share a backing array: Add is documented (by contrast with the Union method, which 'doesn't create any extra slices') to build its result in new memory, so no other value and no cell of the old array may change; " +
+				"Remove (shifts the receiver's own elements) and a Union method whose result fits the receiver's capacity work in place by design: a copy that reads the cells they move does change on the unchanged library - counted in values:value_sharing_the_array_disturbed_by_in_place_*(not judged) - while every cell outside that licence is judged",
 		},
 		Run:            run,
 		MinEvaluations: map[string]int{"quick": 150000, "thorough": 1500000},
@@ -34,6 +43,10 @@ func init() {
 			"op:Union", "op:Intersection", "op:IntersectionSize", "op:SetMinus", "op:XOR", "op:ContainsSorted", "op:ContainsSingle", "op:Complement",
 			"op:NewSortedInts", "op:Add", "op:Remove", "op:Range", "op:Union_method", "Union_method:in_place", "Union_method:reallocated",
 			"Range:required_panics_seen", "Range:descending", "Add:args_repeated_and_present", "sort:heapsort_entry", "sort:Sort", "operands_compared_bitwise", "history:bystanders_checked",
+			"Add:copy_of_receiver_and_surrounding_array_compared", "Add:one_new_largest_element_on_receiver_with_spare_capacity",
+			"reps:pairs_of_empty_sets_one_nil_one_non_nil", "reps:empty_library_result_fed_back_as_argument", "reps:nil_receiver", "reps:nil_argument_list",
+			"values:copies_by_assignment", "values:other_values_compared", "values:mutations_while_another_live_value_shares_the_array",
+			"values:Add_on_receiver_whose_spare_capacity_is_read_by_another_live_value", "values:value_sharing_the_array_intact_after_in_place_Remove", "values:Union_method_that_cannot_be_done_in_place",
 		},
 	})
 }
@@ -48,6 +61,7 @@ type emb struct {
 	s    sortints.SortedInts
 	back []int
 	snap []int
+	off  int // index in back of the first cell of s
 }
 
 // embed places vals at offset pad of a fresh array with `spare` cells of spare
@@ -59,9 +73,27 @@ func embed(vals []int, spare int) *emb {
 		back[i] = sentinel(i)
 	}
 	copy(back[pad:], vals)
-	e := &emb{back: back, snap: append([]int(nil), back...)}
+	e := &emb{back: back, snap: append([]int(nil), back...), off: pad}
 	e.s = back[pad : pad+n : pad+n+spare]
 	return e
+}
+
+// watch wraps a value that was made elsewhere (nil, a literal, the result of a
+// library call): the watched array is the value up to its capacity.
+func watch(s sortints.SortedInts) *emb {
+	full := []int(s[:cap(s)])
+	return &emb{s: s, back: full, snap: append([]int(nil), full...)}
+}
+
+// outsideWindow reports the first change outside the cells [0, cap) of the
+// slice ("" if none): cells that never belonged to the value.
+func (e *emb) outsideWindow(window int) string {
+	for i := range e.back {
+		if (i < e.off || i >= e.off+window) && e.back[i] != e.snap[i] {
+			return fmt.Sprintf("array index %d (slice index %d): %d -> %d", i, i-e.off, e.snap[i], e.back[i])
+		}
+	}
+	return ""
 }
 
 // changed describes the first difference between the array and its snapshot
@@ -73,12 +105,12 @@ func (e *emb) changed(s sortints.SortedInts, n int) string {
 	for i := range e.back {
 		if e.back[i] != e.snap[i] {
 			where := "contents"
-			if i < pad {
+			if i < e.off {
 				where = "cells before the slice"
-			} else if i >= pad+n {
+			} else if i >= e.off+n {
 				where = "spare capacity / cells behind the slice"
 			}
-			return fmt.Sprintf("%s changed at array index %d (slice index %d): %d -> %d", where, i, i-pad, e.snap[i], e.back[i])
+			return fmt.Sprintf("%s changed at array index %d (slice index %d): %d -> %d", where, i, i-e.off, e.snap[i], e.back[i])
 		}
 	}
 	return ""
@@ -166,8 +198,44 @@ func (m *mon) binary(a, b []int, spareA, spareB int, small bool) {
 	if !small && len(a)+len(b) > 80 {
 		wit = fmt.Sprintf("seeded|len(a)=%d,len(b)=%d,a0=%d,b0=%d", len(a), len(b), first(a), first(b))
 	}
-	ea, eb := embed(a, spareA), embed(b, spareB)
-	fresh := func() { ea, eb = embed(a, spareA), embed(b, spareB) }
+	m.binaryOn(a, b, func() (*emb, *emb) { return embed(a, spareA), embed(b, spareB) }, wit, detail, small)
+	// the Union method: receiver with no / missing-by-one / exact / ample spare capacity
+	need := len(refset.Minus(B, A))
+	spares := []int{0, need, need + 2}
+	if need >= 1 {
+		spares = append(spares, need-1)
+	}
+	if !small {
+		spares = []int{spareA, need, need + spareA}
+		if need >= 1 {
+			spares = append(spares, need-1)
+		}
+	}
+	for _, sp := range spares {
+		if m.muted("Union_method") {
+			break
+		}
+		m.unionMethod(a, b, sp, spareB, wit)
+	}
+	if small || len(a) < 200 {
+		if properOverlap(A, B) {
+			if small {
+				c.NTDistinct(1)
+			} else {
+				c.NT("bin", a, b)
+			}
+		}
+	}
+}
+
+// binaryOn runs the six two-operand functions on operands made by mk (values
+// a and b in whatever representation mk chooses; mk is called again after a
+// violation so that the next function starts from clean operands).
+func (m *mon) binaryOn(a, b []int, mk func() (*emb, *emb), wit string, detail interface{}, small bool) {
+	c := m.c
+	A, B := refset.Of(a...), refset.Of(b...)
+	ea, eb := mk()
+	fresh := func() { ea, eb = mk() }
 
 	type fn struct {
 		name string
@@ -235,33 +303,6 @@ func (m *mon) binary(a, b []int, spareA, spareB int, small bool) {
 			c.Obs("ContainsSorted:true", 1)
 		}
 	}
-	// the Union method: receiver with no / missing-by-one / exact / ample spare capacity
-	need := len(refset.Minus(B, A))
-	spares := []int{0, need, need + 2}
-	if need >= 1 {
-		spares = append(spares, need-1)
-	}
-	if !small {
-		spares = []int{spareA, need, need + spareA}
-		if need >= 1 {
-			spares = append(spares, need-1)
-		}
-	}
-	for _, sp := range spares {
-		if m.muted("Union_method") {
-			break
-		}
-		m.unionMethod(a, b, sp, spareB, wit)
-	}
-	if small || len(a) < 200 {
-		if properOverlap(A, B) {
-			if small {
-				c.NTDistinct(1)
-			} else {
-				c.NT("bin", a, b)
-			}
-		}
-	}
 }
 
 func first(a []int) int {
@@ -272,13 +313,17 @@ func first(a []int) int {
 }
 
 func (m *mon) unionMethod(a, b []int, spare, spareB int, wit string) bool {
+	w := fmt.Sprintf("%s,spare=%d", wit, spare)
+	detail := map[string]interface{}{"receiver": a, "receiver_spare_capacity": spare, "b": b}
+	return m.unionMethodOn(a, b, embed(a, spare), embed(b, spareB), w, detail)
+}
+
+// unionMethodOn: er.s.Union(eb.s) for a receiver / argument in any representation.
+func (m *mon) unionMethodOn(a, b []int, er, eb *emb, w string, detail interface{}) bool {
 	c := m.c
 	A, B := refset.Of(a...), refset.Of(b...)
 	want := refset.Union(A, B)
-	er, eb := embed(a, spare), embed(b, spareB)
 	s := er.s
-	w := fmt.Sprintf("%s,spare=%d", wit, spare)
-	detail := map[string]interface{}{"receiver": a, "receiver_spare_capacity": spare, "b": b}
 	pi := c.Call("Union_method|"+w, func() { s.Union(eb.s) })
 	c.Eval(1)
 	c.Obs("op:Union_method", 1)
@@ -293,11 +338,9 @@ func (m *mon) unionMethod(a, b []int, spare, spareB int, wit string) bool {
 		return false
 	}
 	// outside the receiver's own cells nothing may change
-	for i := range er.back {
-		if (i < pad || i >= pad+len(a)+spare) && er.back[i] != er.snap[i] {
-			m.viol("Union_method", "writes-outside-receiver", w, detail, fmt.Sprintf("array index %d", i), "untouched")
-			return false
-		}
+	if d := er.outsideWindow(cap(er.s)); d != "" {
+		m.viol("Union_method", "writes-outside-receiver", w, detail, d, "untouched")
+		return false
 	}
 	if er.aliases(s) {
 		c.Obs("Union_method:in_place", 1)
@@ -351,6 +394,16 @@ func (m *mon) unionAliased(a []int, spare int) {
 }
 
 func (m *mon) add(recv, args []int, spare int, small bool) {
+	wit := "recv=" + show(recv) + ",args=" + show(args)
+	if !small {
+		wit = fmt.Sprintf("seeded|len(recv)=%d,len(args)=%d,recv0=%d,args0=%d", len(recv), len(args), first(recv), first(args))
+	}
+	detail := map[string]interface{}{"receiver": recv, "args": args, "receiver_spare_capacity": spare}
+	m.addOn(recv, args, embed(recv, spare), embed(args, 1), wit, detail, small)
+}
+
+// addOn: er.s.Add(ex.s...) for a receiver / argument list in any representation.
+func (m *mon) addOn(recv, args []int, er, ex *emb, wit string, detail interface{}, small bool) {
 	c := m.c
 	R := refset.Of(recv...)
 	seen := map[int]int{}
@@ -380,13 +433,7 @@ func (m *mon) add(recv, args []int, spare int, small bool) {
 		return
 	}
 	want := refset.Union(R, refset.Of(args...))
-	er, ex := embed(recv, spare), embed(args, 1)
 	s := er.s
-	wit := "recv=" + show(recv) + ",args=" + show(args)
-	if !small {
-		wit = fmt.Sprintf("seeded|len(recv)=%d,len(args)=%d,recv0=%d,args0=%d", len(recv), len(args), first(recv), first(args))
-	}
-	detail := map[string]interface{}{"receiver": recv, "args": args, "receiver_spare_capacity": spare}
 	pi := c.Call("Add|"+wit, func() { s.Add(ex.s...) })
 	c.Eval(1)
 	c.Obs("op:Add", 1)
@@ -407,6 +454,21 @@ func (m *mon) add(recv, args []int, spare int, small bool) {
 		m.viol("Add", "result-aliases-argument", wit, detail, "the receiver now shares memory with the argument list", "receiver owns its cells")
 		return
 	}
+	// er.s still is the value the receiver had before the call (a copy of it, in the same array), and the array
+	// around it belongs to somebody else: Add builds its result in new slices (that is what the documentation
+	// of the Union method sets it apart by), so both read as before
+	c.Obs("Add:copy_of_receiver_and_surrounding_array_compared", 1)
+	if cap(er.s) > len(er.s) {
+		c.Obs("Add:receiver_with_spare_capacity", 1)
+		if len(args) == 1 && len(want) > len(R) && (len(recv) == 0 || args[0] > recv[len(recv)-1]) {
+			c.Obs("Add:one_new_largest_element_on_receiver_with_spare_capacity", 1)
+		}
+	}
+	if d := er.changed(er.s, len(recv)); d != "" {
+		m.viol("Add", "changes-value-other-than-receiver", wit, detail, "a copy of the receiver taken before the call / the array around it: "+d,
+			"Add changes its receiver only: copies of the old value and the cells behind it (spare capacity) read as before")
+		return
+	}
 	if (rep || present) && isNew {
 		if small {
 			c.NTDistinct(1)
@@ -417,18 +479,22 @@ func (m *mon) add(recv, args []int, spare int, small bool) {
 }
 
 func (m *mon) newSorted(args []int, small bool) {
+	wit := "args=" + show(args)
+	if !small {
+		wit = fmt.Sprintf("seeded|len(args)=%d,args0=%d", len(args), first(args))
+	}
+	m.newSortedOn(args, embed(args, 2), wit, small)
+}
+
+// newSortedOn: NewSortedInts(ex.s...) for an argument list in any representation.
+func (m *mon) newSortedOn(args []int, ex *emb, wit string, small bool) {
 	c := m.c
 	m.class = ""
 	if m.muted("NewSortedInts") {
 		return
 	}
 	want := refset.Of(args...)
-	ex := embed(args, 2)
-	wit := "args=" + show(args)
-	if !small {
-		wit = fmt.Sprintf("seeded|len(args)=%d,args0=%d", len(args), first(args))
-	}
-	detail := map[string]interface{}{"args": args}
+	detail := map[string]interface{}{"args": args, "witness": wit}
 	var got sortints.SortedInts
 	pi := c.Call("NewSortedInts|"+wit, func() { got = sortints.NewSortedInts(ex.s...) })
 	c.Eval(1)
@@ -457,13 +523,18 @@ func (m *mon) newSorted(args []int, small bool) {
 }
 
 func (m *mon) removeAndContains(recv []int, x, spare int) {
+	wit := fmt.Sprintf("recv=%s,x=%d", show(recv), x)
+	detail := map[string]interface{}{"receiver": recv, "x": x, "receiver_spare_capacity": spare}
+	m.removeAndContainsOn(recv, x, func() *emb { return embed(recv, spare) }, wit, detail)
+}
+
+// removeAndContainsOn: ContainsSingle(v, x) and v.Remove(x) on values made by mk (any representation).
+func (m *mon) removeAndContainsOn(recv []int, x int, mk func() *emb, wit string, detail interface{}) {
 	c := m.c
 	m.class = ""
 	R := refset.Of(recv...)
-	wit := fmt.Sprintf("recv=%s,x=%d", show(recv), x)
-	detail := map[string]interface{}{"receiver": recv, "x": x, "receiver_spare_capacity": spare}
 	if !m.muted("ContainsSingle") {
-		ea := embed(recv, spare)
+		ea := mk()
 		var got bool
 		pi := c.Call("ContainsSingle|"+wit, func() { got = sortints.ContainsSingle(ea.s, x) })
 		c.Eval(1)
@@ -477,7 +548,7 @@ func (m *mon) removeAndContains(recv []int, x, spare int) {
 		}
 	}
 	if !m.muted("Remove") {
-		er := embed(recv, spare)
+		er := mk()
 		s := er.s
 		want := R.Copy()
 		delete(want, x)
@@ -491,11 +562,9 @@ func (m *mon) removeAndContains(recv []int, x, spare int) {
 		if !m.result("Remove", wit, detail, s, want) {
 			return
 		}
-		for i := range er.back {
-			if (i < pad || i >= pad+len(recv)) && er.back[i] != er.snap[i] {
-				m.viol("Remove", "writes-outside-receiver", wit, detail, fmt.Sprintf("array index %d (slice index %d)", i, i-pad), "only the receiver's own elements move")
-				return
-			}
+		if d := er.outsideWindow(len(recv)); d != "" {
+			m.viol("Remove", "writes-outside-receiver", wit, detail, d, "only the receiver's own elements move")
+			return
 		}
 		if R[x] {
 			c.Obs("Remove:present", 1)
@@ -504,6 +573,11 @@ func (m *mon) removeAndContains(recv []int, x, spare int) {
 }
 
 func (m *mon) complement(n int, a []int, spare int) {
+	m.complementOn(n, a, embed(a, spare), fmt.Sprintf("n=%d,a=%s", n, show(a)))
+}
+
+// complementOn: Complement(n, ea.s) for an argument in any representation.
+func (m *mon) complementOn(n int, a []int, ea *emb, wit string) {
 	c := m.c
 	m.class = "a within 0..n-1"
 	for _, v := range a {
@@ -515,9 +589,7 @@ func (m *mon) complement(n int, a []int, spare int) {
 		return
 	}
 	want := refset.Minus(refset.Interval(n), refset.Of(a...))
-	ea := embed(a, spare)
-	wit := fmt.Sprintf("n=%d,a=%s", n, show(a))
-	detail := map[string]interface{}{"n": n, "a": a}
+	detail := map[string]interface{}{"n": n, "a": a, "witness": wit}
 	var got sortints.SortedInts
 	pi := c.Call("Complement|"+wit, func() { got = sortints.Complement(n, ea.s) })
 	c.Eval(1)
@@ -1058,7 +1130,13 @@ func run(c *engine.Ctx) {
 		})
 	}
 
-	// 7. sorting
+	// 7. every representation of a value in every argument position (reps.go)
+	repUnits(c)
+
+	// 8. several live values that share backing arrays (values.go)
+	valueUnits(c)
+
+	// 9. sorting
 	sortUnits(c)
 }
 
